@@ -2,15 +2,14 @@
 objects (`Model/Service.lean`, section TALK) on top of the service model. -/
 import Driver.Common
 import Driver.ServiceDrv
+import Discv5Model.Model.Talk
 namespace Discv5.Driver
 namespace TalkD
 open Discv5.Svc SvcD
 
 structure TalkSt where
-  /-- request objects held by the application (`none` once consumed) -/
-  reqs : List (Option TalkReq) := []
-  /-- the service runs and the handler side of the channel is alive -/
-  running : Bool := false
+  /-- the world of request objects (`Model/Talk.lean`) -/
+  w : Discv5.Talk.World := {}
   started : Bool := false
 
 def showResps (outs : List Out) : List String :=
@@ -20,32 +19,35 @@ def showResps (outs : List Out) : List String :=
 
 def line (items : List String) : String := if items.isEmpty then "-" else " ".intercalate items
 
+def showRes : Option TalkResult → String
+  | some .ok => "ok" | some .channelClosed => "err" | some .panic => "panic" | none => "-"
+
+open Discv5.Talk in
 def talkStep (st : TalkSt) (toks : List String) : TalkSt × String :=
   match toks with
   | ["tnop"] => (st, "noop")
-  | ["tnew"] => ({ reqs := [], running := true, started := true }, "ok")
+  | ["tnew"] => ({ w := {}, started := true }, "ok")
   | ["tdeliver", peer, addr, rid, _proto, _payload] =>
     if !st.started then (st, "noop") else
-    if !st.running then (st, "-") else
     -- `handle_rpc_request`: the request becomes an object handed to the application
-    let t : TalkReq := { rid := bytesOf rid, peer := sKey peer, addr := parseAddr addr }
-    let st' := { st with reqs := st.reqs ++ [some t] }
-    (st', s!"talkreq:#{st'.reqs.length}:{hexOrDash t.rid}")
+    let (w', _, _) := st.w.step (.deliver (bytesOf rid) (sKey peer) (parseAddr addr))
+    if w'.reqs.length == st.w.reqs.length then ({ st with w := w' }, "-") else
+    ({ st with w := w' }, s!"talkreq:#{w'.reqs.length}:{hexOrDash (bytesOf rid)}")
   | ["trespond", i, payload] =>
-    match st.reqs[nat! i - 1]? with
-    | some (some t) =>
-      let (r, outs) := t.life st.running (.respond (bytesOf payload))
-      let rs := match r with
-        | some .ok => "ok" | some .channelClosed => "err" | some .panic => "panic" | none => "-"
-      ({ st with reqs := st.reqs.set (nat! i - 1) none }, s!"res={rs} {line (showResps outs)}")
+    match st.w.reqs[nat! i - 1]? with
+    | some (some _) =>
+      let (w', r, outs) := st.w.step (.use (nat! i - 1) (.respond (bytesOf payload)))
+      ({ st with w := w' }, s!"res={showRes r} {line (showResps (outs.map (·.2)))}")
     | _ => (st, "noop")
   | ["tdrop", i] =>
-    match st.reqs[nat! i - 1]? with
-    | some (some t) =>
-      let (_, outs) := t.life st.running .dropOnly
-      ({ st with reqs := st.reqs.set (nat! i - 1) none }, line (showResps outs))
+    match st.w.reqs[nat! i - 1]? with
+    | some (some _) =>
+      let (w', _, outs) := st.w.step (.use (nat! i - 1) .dropOnly)
+      ({ st with w := w' }, line (showResps (outs.map (·.2))))
     | _ => (st, "noop")
-  | ["tshutdown"] => ({ st with running := false }, "ok")
+  | ["tshutdown"] =>
+    let (w', _, _) := st.w.step .shutdown
+    ({ st with w := w' }, "ok")
   | _ => (st, "bad-op")
 
 end TalkD
